@@ -271,6 +271,18 @@ class Program:
         if rer:
             self.normalisation_log += rer
             self._reindex()
+        from .normalize import explicit_context_protocol_as_with
+
+        ewith = explicit_context_protocol_as_with(self)
+        if ewith:
+            self.normalisation_log += ewith
+            self._reindex()
+        from .normalize import cursor_loops_as_recursion
+
+        cur = cursor_loops_as_recursion(self)
+        if cur:
+            self.normalisation_log += cur
+            self._reindex()
         from .normalize import strip_identity_conversions, strip_typed_conversions
 
         ident = strip_identity_conversions(self)
